@@ -135,7 +135,7 @@ func digestProblems(f string, p *dec.Package, st *digStats) []problem {
 	case "archlinux":
 		sz, ok := p.MetaGet("size")
 		atomic.AddInt64(&st.sizes, 1)
-		if !ok && sum != 0 || ok && sz != strconv.FormatInt(sum, 10) {
+		if !ok || sz != strconv.FormatInt(sum, 10) {
 			add("pkginfo-size", fmt.Sprintf("stored %q, payload regular files total %d", sz, sum))
 		}
 		// .MTREE: .PKGINFO first, then one line per payload entry
@@ -345,6 +345,42 @@ func c03(run *ev.Run, tier string) {
 	c03Overlapping(run, tier, &st)
 	afterFailedBuilds(run, "C03", func(f string, raw []byte, p *dec.Package) []problem { return digestProblems(f, p, &st) })
 	c03SourceDateEpochSet(run, tier, &st)
+	// one source shipped to several destinations counts once per destination; a payload
+	// that totals zero bytes still states its size
+	{
+		ddir := newWorkDir("c03-twice")
+		one := filepath.Join(ddir, "one.bin")
+		_ = os.WriteFile(one, bytes.Repeat([]byte("0123456789abcdef"), 5000), 0o644)
+		zero := filepath.Join(ddir, "zero.dat")
+		_ = os.WriteFile(zero, nil, 0o644)
+		for name, contents := range map[string][]*gen.Content{
+			"one-source-three-destinations": {{Src: one, Dst: "/opt/twice/a.bin"}, {Src: one, Dst: "/opt/twice/b.bin"}, {Src: one, Dst: "/usr/share/twice/c.bin", Type: "config"}},
+			"only-empty-files":              {{Src: zero, Dst: "/opt/twice/zero.dat"}, {Src: zero, Dst: "/opt/twice/zero2.dat"}},
+			"only-a-directory-and-a-link":   {{Type: "dir", Dst: "/var/lib/twice"}, {Type: "symlink", Src: "/var/lib/twice", Dst: "/opt/twice-link"}},
+			"no-contents-at-all":            {},
+		} {
+			s := &gen.Spec{Name: "twice", Arch: "amd64", Version: "1.0.0", Maintainer: "T <t@example.com>", Description: "d", MTime: 1500000000}
+			s.RPM.BuildHost = "verif-host"
+			s.Contents = contents
+			for _, f := range formats {
+				run.Case("directed|"+name+"|"+f, true)
+				res := buildYAML(s.YAML(), f)
+				if res.Err != nil || res.Panic != "" {
+					run.Violate("C03/"+f+"/build-error", map[string]any{"case": name, "error": fmt.Sprint(res.Err, ev.Short(res.Panic, 200))})
+					continue
+				}
+				p := dec.Decode(f, res.Bytes, false)
+				if len(p.Errs) > 0 {
+					run.Violate("C03/"+f+"/undecodable", map[string]any{"case": name, "errors": p.Errs})
+					continue
+				}
+				for _, pr := range digestProblems(f, p, &st) {
+					run.Violate("C03/"+f+"/"+name+"/"+pr.kind, map[string]any{"detail": ev.Short(pr.detail, 300)})
+				}
+			}
+		}
+		removeWorkDir(ddir)
+	}
 	// sources whose stat size is not the number of bytes a read returns (procfs: size 0,
 	// real content): whatever a format ships of them, the sizes and digests it states
 	// are those of the shipped bytes
